@@ -5,7 +5,7 @@
     Arc::from_svg_arc, Arc::to_svg_arc, SvgArc::{to_arc, is_straight_line,
     for_each_quadratic_bezier(_with_t), for_each_cubic_bezier},
     arc_to_quadratic_beziers_with_t, arc_to_cubic_beziers, sample_ellipse (Basic.lean),
-    tangent_at_angle, Line::intersection (line.rs, as used for the quadratic control point),
+    tangent_at_angle,
 
   plus the euclid 0.22.9 arithmetic they call (trig.rs / vector.rs / angle.rs):
   `Trig::fast_atan2` (a degree-7 odd polynomial, NOT libm atan2), `Vector2D::angle_from_x_axis`,
@@ -14,7 +14,17 @@
   Everything is written once over `[Scalar α] [Transc α] [ArcConv.Eps α]`; it runs at
   `Float32`/`Float` in the correspondence check and is the object of the theorems of `Props/C13`
   at an ordered field.  The angle function used by `from_svg_arc` is a parameter of
-  `fromSvgArcWith`; lyon's code is the instance `fromSvgArc = fromSvgArcWith angleFromXAxis`.
+  `fromSvgArcWith`; lyon's code is the instance `fromSvgArc = fromSvgArcWith exactAngle`
+  (libm `atan2`).
+
+  History (the model mirrors the code that exists):
+  * up to /repo a39176c6 `from_svg_arc` took its angles with euclid's `angle_from_x_axis`
+    (`fast_atan2`, kept below because `Vector2D::angle_from_x_axis`/`angle_to` are still euclid's
+    API and `Props/C13` documents why it must not be used here); the model instance was
+    `fromSvgArcWith angleFromXAxis`.
+  * up to /repo a403d79f the quadratic control point was `l2.intersection(&l1).unwrap_or(from)`
+    (`Line::intersection` on the two end tangents, `None` when `|det| <= S::EPSILON`); it is now
+    `from + tangent(a1) * tan(step / 2)`.
 
   Constants: `S::PI()` = `core::fN::consts::PI` = `Transc.pi`; `FRAC_PI_2`/`FRAC_PI_4` are the same
   significand with a smaller exponent, i.e. exactly `pi/2`, `pi/4` in binary floating point;
@@ -144,8 +154,11 @@ def fromSvgArcWith (ang : P α → α) (a : SvgArc α) : Arc α :=
     sweep := adjustSweep a.sweep (Transc.fmod (ang (endV a) - ang (startV a)) twoPi)
     xrot := a.xrot }
 
-/-- `Arc::from_svg_arc` as it is: angles by euclid's polynomial `fast_atan2`. -/
-def fromSvgArc (a : SvgArc α) : Arc α := fromSvgArcWith angleFromXAxis a
+/-- `Angle::radians(Float::atan2(v.y, v.x))` -/
+def exactAngle (v : P α) : α := Transc.atan2 v.y v.x
+
+/-- `Arc::from_svg_arc` as it is (since /repo a39176c6): angles by libm `atan2`. -/
+def fromSvgArc (a : SvgArc α) : Arc α := fromSvgArcWith exactAngle a
 /-- `assert!(!arc.is_straight_line())` -/
 def fromSvgArcPanics (a : SvgArc α) : Bool := isStraightLine a
 
@@ -158,7 +171,7 @@ def toSvgArc (arc : Arc α) : SvgArc α :=
     large := decide (abs arc.sweep ≥ Transc.pi)
     sweep := decide (arc.sweep ≥ zero) }
 
-/-! ## tangents, line intersection -/
+/-! ## tangents -/
 
 /-- `Arc::tangent_at_angle` -/
 def tangentAtAngle (arc : Arc α) (a : α) : P α :=
@@ -166,18 +179,6 @@ def tangentAtAngle (arc : Arc α) (a : α) : P α :=
 
 /-- `Arc::sample_tangent` -/
 def sampleTangent (arc : Arc α) (t : α) : P α := tangentAtAngle arc (arc.getAngle t)
-
-/-- the point formula of `Line::intersection` (`self = (p1, v1)`, `other = (p2, v2)`) -/
-def lineIntersectionPt (p1 v1 p2 v2 : P α) : P α :=
-  let det := v1.cross v2
-  let inv := one / det
-  let a := p1.cross (p1 + v1)
-  let b := p2.cross (p2 + v2)
-  ⟨(b * v1.x - a * v2.x) * inv, (b * v1.y - a * v2.y) * inv⟩
-
-/-- `Line::intersection`: `None` when `|det| <= S::EPSILON` -/
-def lineIntersection (p1 v1 p2 v2 : P α) : Option (P α) :=
-  if abs (v1.cross v2) ≤ Eps.eps then none else some (lineIntersectionPt p1 v1 p2 v2)
 
 /-! ## `arc_to_quadratic_beziers_with_t`, `arc_to_cubic_beziers` -/
 
@@ -194,15 +195,13 @@ def pointAt (arc : Arc α) (a : α) : P α := arc.center + Arc.sampleEllipse arc
 /-- `arc.start_angle + step * cast(i)` -/
 def angleAt (arc : Arc α) (step : α) (i : Nat) : α := arc.start + step * ofNat i
 
-/-- `l2.intersection(&l1).unwrap_or(from)` -/
-def quadCtrl (arc : Arc α) (a1 a2 : α) : P α :=
-  match lineIntersection (pointAt arc a2) (tangentAtAngle arc a2) (pointAt arc a1) (tangentAtAngle arc a1) with
-  | some p => p
-  | none => pointAt arc a1
+/-- `from + arc.tangent_at_angle(a1) * Float::tan(step.get() * S::HALF)` -/
+def quadCtrl (arc : Arc α) (a1 step : α) : P α :=
+  pointAt arc a1 + (tangentAtAngle arc a1).smul (Transc.tan (step * half))
 
 def quadPiece (arc : Arc α) (step : α) (i : Nat) : Quad α :=
   ⟨pointAt arc (angleAt arc step i),
-   quadCtrl arc (angleAt arc step i) (angleAt arc step (i+1)),
+   quadCtrl arc (angleAt arc step i) step,
    pointAt arc (angleAt arc step (i+1))⟩
 
 /-- `t1 = if i + 1 == n { 1 } else { t0 + dt }` -/
